@@ -475,7 +475,18 @@ func (s *Server) handlePostTx(w http.ResponseWriter, r *http.Request) {
 		return
 	}
 
-	// TODO(fwd): Ensure halt lock is held by caller.
+	// Ensure halt lock is held by caller. A forwarded transaction is applied
+	// without taking the write lock because the halt lock's guard set already
+	// holds it, so it must only be accepted from the current holder.
+	lockID, err := strconv.ParseInt(q.Get("lockID"), 10, 64)
+	if err != nil {
+		Error(w, r, fmt.Errorf("invalid lock id: %q", q.Get("lockID")), http.StatusBadRequest)
+		return
+	} else if id := db.HaltLockID(); id == 0 || id != lockID {
+		Error(w, r, fmt.Errorf("halt lock not held by caller"), http.StatusConflict)
+		return
+	}
+
 	// TODO(fwd): Prevent halt lock release during copy & apply.
 
 	// Wrap request body in a chunked reader.
